@@ -114,6 +114,15 @@ def seg_unit(v, seg, res, tier):
         out = both(lambda lvl: parse_segment(text, version=v, validation_level=lvl))
         judge_pair(res, out, '%s|%s' % (shape, 'v' + v if shape == 'all-leaves' else ''), 'parse_segment(%r) v%s' % (text[:100], v),
                    {'kind': 'seg', 'v': v, 'seg': seg, 'text': text, 'shape': shape, 'must': must_reject}, must_reject)
+        if must_reject:
+            # STRICT once more, now that TOLERANT has processed the same text in this process: what TOLERANT let through must
+            # not be remembered on behalf of STRICT
+            again = both(lambda lvl: parse_segment(text, version=v, validation_level=lvl))['S']
+            res.transitions += 1
+            if again != out['S']:
+                res.violation('strict-depends-on-history|%s' % must_reject.split('-')[0], 'parse_segment(%r) v%s under STRICT gives %r when fresh and %r after '
+                              'the same text was parsed under TOLERANT' % (text[:100], v, out['S'][:2], again[:2]),
+                              {'kind': 'seg', 'v': v, 'seg': seg, 'text': text, 'shape': shape, 'must': must_reject}, 1)
 
     # base-datatype fields declared 'leaf' take no component/subcomponent separators: STRICT may refuse what TOLERANT keeps
     for idx, fr in rows:
@@ -181,7 +190,7 @@ class TwinSpec(hist.Spec):
         for n in self.names:
             v1, v2 = self.values[n]
             ops += [('set', n, v1), ('set', n, v2), ('setidx', n, 1, v2), ('add_el', n, v1), ('add_helper', n, v2), ('del', n), ('delidx', n, 1)]
-        ops += [('x_overflow', self.names[0]), ('x_foreign',), ('x_unknown',), ('x_dtoverride',), ('x_invalid',), ('x_overlong',)]
+        ops += [('x_overflow', self.names[0]), ('x_foreign',), ('x_unknown',), ('x_dtoverride',), ('x_invalid',), ('x_overlong',), ('x_dtnone',)]
         ops += [('keep_proxy',), ('write_kept',), ('x_kept_overflow',)]
         return ops
 
@@ -254,6 +263,22 @@ class TwinSpec(hist.Spec):
                 s = Segment('PID', version=V, validation_level=lvl)
                 s.add(Field('PID_5', datatype='ST', version=V, validation_level=lvl))
                 r.add(s)
+        elif k == 'x_dtnone':
+            # the official datatype cleared first (None), then overridden, then a value of the new datatype
+            if self.kind == 'field':
+                cs = r.cx_1
+                c = cs[0] if len(cs) else r.add_component('CX_1')
+                c.datatype = None
+                c.datatype = 'NM'
+                c.value = '12'
+            else:
+                seg = r if self.kind == 'segment' else (r.pid if self.kind == 'message' else r.in1)
+                n = 'PID_1' if self.kind != 'group' else 'IN1_1'
+                fs = getattr(seg, n)
+                f = fs[0] if len(fs) else seg.add_field(n)
+                f.datatype = None
+                f.datatype = 'ST'
+                f.value = 'abc'
         elif k == 'x_invalid':
             if self.kind == 'segment':
                 r.pid_7 = 'notadate'
@@ -294,7 +319,7 @@ class TwinSpec(hist.Spec):
         if op[0] == 'write_kept' and s[0] == 'raise' and s[1] == 'LookupError':
             return
         must = {'x_overflow': 'cardinality-overflow', 'x_kept_overflow': 'cardinality-overflow-through-kept-proxy', 'x_foreign': 'foreign-child', 'x_unknown': 'unknown-child', 'x_dtoverride': 'datatype-override',
-                'x_invalid': 'invalid-value', 'x_overlong': 'overlong-value'}.get(op[0])
+                'x_invalid': 'invalid-value', 'x_overlong': 'overlong-value', 'x_dtnone': 'datatype-cleared-then-overridden'}.get(op[0])
         if must:
             res.nontrivial += 1
         if s[0] == 'ok':
